@@ -210,6 +210,12 @@ def normalize(W, copy=True):
     '''
     if copy:
         W = W.copy()
+    if W.dtype.kind in 'biu':
+        # an integer matrix cannot hold the scaled weights
+        if not copy:
+            raise BCTParamError('Cannot normalize an integer matrix in place; '
+                                'pass a floating point matrix or copy=True')
+        W = W.astype(float)
     W /= np.max(np.abs(W))
     return W
 
